@@ -302,6 +302,9 @@ Definition t_mv (src dst : list name) (slash : bool) (t : node) : node * out :=
       let (t3, x3) := tnav (sdir ++ [sname]) tg_getnode t2 in
       match x3 with
       | RNode nd =>
+          (* a directory cannot be moved into itself or below itself: checked on the destination's
+             parent first, on the directory the move lands in below *)
+          if is_dirnode nd && prefixb (sdir ++ [sname]) ddir then (t3, RErr EOther) else
           let (t4, x4) := tnav (ddir ++ [dname]) tg_kind t3 in
           let kind := match x4 with RStat isd _ _ _ => Some isd | _ => None end in
           let '(fdir, fname) := match kind with
@@ -551,6 +554,8 @@ Definition m_mv (fl : flags) (src dst : list name) (slash : bool) (o : obj) : ob
       let '(o3, x3, _) := nav (sdir ++ [sname]) g_getnode o2 in       (* srcDir.Child; srcObj.GetNode *)
       match x3 with
       | RNode nd =>
+          if negb (f_mv_self fl) && is_dirnode nd && prefixb (sdir ++ [sname]) ddir
+          then (o3, RErr EOther) else
           let '(o4, x4, _) := nav (ddir ++ [dname]) g_kind o3 in      (* dstDir.Child(dstFname) *)
           let kind := match x4 with RStat isd _ _ _ => Some isd | _ => None end in
           let '(fdir, fname) := match kind with
